@@ -25,7 +25,14 @@ RULE = ('case = (transport, close path, number of requests in flight 0..3, peer 
         '(with, without exception), 0..3 requests in flight - TLS: the peer (driven through ssl.MemoryBIO) put a truncated '
         'record on the wire (all but the last 40 octets / half / 3 octets of the header / 1 octet; record of 100..15000 octets) and stays '
         'silent; Unix, SSH: spurious readiness (the octets that made the handle readable are taken away between select and recv). '
-        'quick = Unix socketpair + 14 SSH cases (the 8 ssh_buffered ones included) + 10 TLS cases (4 blocked_read, 1 failed hello with the worker asleep in recv behind the session tickets); thorough adds '
+        'Every transport (callers): WHO enters the close path - the main thread of the process, an application thread (daemon / non-daemon; '
+        'every other scenario is driven by one), the session\'s own thread (close_in_callback), the thread of ANOTHER session: two sessions A, B '
+        'in one process, a listener of A (listeners run on A\'s session thread) closes B by close() / close_session() / with-exit (with, '
+        'without exception) when A receives a notification (callback) or when A\'s peer goes away (errback: cascade close); B has 0..3 requests '
+        'in flight and 1..3 listeners whose errback takes 0.1..0.3 s, so that B\'s last error broadcast is still under way if close() does not '
+        'wait for B\'s thread; A (Unix or the same transport as B) is closed afterwards and checked as a session of its own; the caller kind '
+        'is measured inside close() (histogram close_called_by). '
+        'quick = Unix socketpair (5 callers cases: 3 foreign, main, app) + 15 SSH cases (the 8 ssh_buffered ones, 1 foreign close included) + 11 TLS cases (4 blocked_read, 1 failed hello with the worker asleep in recv behind the session tickets, 1 foreign close); thorough adds '
         'TLS over loopback TCP and SSH over a socketpair in full. distinct = '
         'distinct case tuples; non-trivial = a handle was opened (all but the pre-handle connect failures).')
 ASSUMES = ['O1 (TLS/Unix): a read begun after the local close of the socket returns no data (EOF or error) - validated by every trace',
@@ -37,7 +44,8 @@ ASSUMES = ['O1 (TLS/Unix): a read begun after the local close of the socket retu
            'O6: a read sleeping inside the transport is woken by the local shutdown/close of the handle and returns without data; with the '
            'handle open it returns only when the peer sends / the socket time-out expires - validated by every blocked_read trace (the model '
            'accepts Read after Block only behind the CloseHandle label or an Unblock) and by the bound on close() (<= 2 s) measured there',
-           'listener callbacks return (a callback that blocks forever blocks the worker and so close())']
+           'listener callbacks return (a callback that blocks forever blocks the worker and so close()); in particular two sessions whose '
+           'listeners close EACH OTHER wait for each other for ever (Props/C12.v C12_ex_mutual_close_waits_for_ever): not exercised']
 TRUSTED = ['modelled, not verified: kernel socket/epoll semantics, OpenSSL shutdown, paramiko transport/channel teardown, threading.Thread',
            'oracle hypotheses O1-O6 are built into Model/Close.v step (no Axiom/Parameter): O4 = Arrive is enabled only while socket_open, '
            'O5 = Read (RData n) pops the head of chan and Read REof needs chan = [] on SSH; C12_ssh_bound, C12_ssh_bound_from_closing, '
@@ -47,7 +55,11 @@ TRUSTED = ['modelled, not verified: kernel socket/epoll semantics, OpenSSL shutd
            'blocked_read: "asleep" = the last entry the worker logged is ReadBegin and it is >= 0.2 s old when the close path is entered '
            '(evidence histogram blocked_read_worker_asleep_at_close); a read counts as having slept when it took >= 0.15 s',
            'SSH chunk accounting of the harness: len(paramiko Channel.in_buffer) read under the log lock right after Transport.close() returned',
-           'harness logging discipline (flag writes/reads logged under one lock; blocking calls as Begin/result pairs)']
+           'harness logging discipline (flag writes/reads logged under one lock; blocking calls as Begin/result pairs)',
+           'caller kind of a close(): computed by the harness inside close() from threading.current_thread() (is the session itself -> own, '
+           'an instance of ncclient.transport.session.Session -> foreign, threading.main_thread() -> main, else app) and handed to the model as the '
+           'actor code of the CStep / CloseRet labels (Model/CloseCallers.v caller_of_code, actor_of); the two sessions of a foreign-close case are '
+           'checked against the one-session model separately (justified by C12_two_sessions_project), the pair model step2 itself is not run']
 ALLOWED_AXIOMS = []
 
 BOUND = 2.0           # seconds: peer EOF / thread exit after the close path returned (expected <= 0.2 s)
@@ -70,6 +82,13 @@ def BL():
     from harness import c12_blocked
     return c12_blocked
 
+def CL():
+    from harness import c12_callers
+    return c12_callers
+
+# the caller of a close() as the glue knows it (Model/CloseCallers.v: caller_of_code): only `own` is the actor Worker
+ACODE = {'main': 0, 'own': 1, 'app': 2, 'foreign': 3}
+
 def rundir():
     from vlib import paths
     os.makedirs(paths.RUN, exist_ok=True)
@@ -89,6 +108,8 @@ def to_labels(kind, plog, connect_failed=None, ptimes=None):
     shut_done = {0: False, 1: False}   # this actor's close() already performed its CloseHandle at the shutdown
     asleep = [False]
     prog = {0: None, 1: None}          # remaining close program per actor (None: not inside close)
+    ckind = ['main']                   # who called the close() a non-worker thread is inside of (log entry CloseCall)
+    def ac(a): return 1 if a == 1 else ACODE.get(ckind[0], 0)
     connected_once = False
     hello_skipped = False
     up = False
@@ -107,18 +128,18 @@ def to_labels(kind, plog, connect_failed=None, ptimes=None):
     def cstep(a, name):
         p = prog[a]
         if p is None:
-            emit([8, a, CSTEP[name], 1], a == 1); return     # outside close(): the model will reject
+            emit([8, ac(a), CSTEP[name], 1], a == 1); return     # outside close(): the model will reject
         while p and p[0] != name:
             c = p.pop(0)
-            if c in ('CloseHandle', 'JoinW'): emit([8, a, CSTEP[c], 0], a == 1)      # guarded statement skipped
-            else: emit([8, a, CSTEP[c], 1], a == 1)                                   # not observed: let the model judge
+            if c in ('CloseHandle', 'JoinW'): emit([8, ac(a), CSTEP[c], 0], a == 1)      # guarded statement skipped
+            else: emit([8, ac(a), CSTEP[c], 1], a == 1)                                   # not observed: let the model judge
         if p: p.pop(0)
-        emit([8, a, CSTEP[name], 1], a == 1)
+        emit([8, ac(a), CSTEP[name], 1], a == 1)
     def flush(a):
         p = prog[a] or []
         while p:
             c = p.pop(0)
-            emit([8, a, CSTEP[c], 0 if c in ('CloseHandle', 'JoinW') else 1], a == 1)
+            emit([8, ac(a), CSTEP[c], 0 if c in ('CloseHandle', 'JoinW') else 1], a == 1)
     n = len(plog)
     for i, (lab, arg, w) in enumerate(plog):
         a = 1 if w else 0
@@ -149,6 +170,7 @@ def to_labels(kind, plog, connect_failed=None, ptimes=None):
         elif lab == 'CsRet': emit([11])
         elif lab == 'CloseCall':
             if not w:
+                ckind[0] = arg if arg in ACODE and arg != 'own' else 'main'
                 if not up and not failed_emitted[0]:
                     emit([2]); failed_emitted[0] = True        # the manager's cleanup branch: connect raised
                 emit([7])
@@ -170,8 +192,8 @@ def to_labels(kind, plog, connect_failed=None, ptimes=None):
             # ssh close(): `if self._transport.is_active()` was false - the guarded statement is skipped here
             if prog[a] and 'CloseHandle' in prog[a]:
                 while prog[a][0] != 'CloseHandle':
-                    c = prog[a].pop(0); emit([8, a, CSTEP[c], 0 if c == 'JoinW' else 1], a == 1)
-                prog[a].pop(0); emit([8, a, CSTEP['CloseHandle'], 0], a == 1); handle_closed[0] = True
+                    c = prog[a].pop(0); emit([8, ac(a), CSTEP[c], 0 if c == 'JoinW' else 1], a == 1)
+                prog[a].pop(0); emit([8, ac(a), CSTEP['CloseHandle'], 0], a == 1); handle_closed[0] = True
                 out.append([SB().MARK, arg])
         elif lab == 'DropChannelClose':
             if prog[a] is not None: cstep(a, 'ChanDrop')
@@ -179,7 +201,7 @@ def to_labels(kind, plog, connect_failed=None, ptimes=None):
             if arg == 1 and prog[0] is not None: cstep(0, 'JoinW')
         elif lab == 'CloseRet':
             flush(a); prog[a] = None
-            emit([9, a], a == 1)
+            emit([9, ac(a)], a == 1)
         elif lab == 'CloseRaise':
             emit([99])                             # no such label: the model rejects
         elif lab == 'SelectBegin': emit([14], True)
@@ -261,6 +283,7 @@ class Run(object):
     def __init__(self):
         self.s = None; self.peer = None; self.rpcs = []; self.t_ret = None; self.raised = None
         self.connect_failed = None; self.handle_opened = True; self.extra = {}; self.server = None
+        self.other = None          # (case, Run) of a second session that took part (path callers, caller foreign)
 
 def opener(kind, files):
     p = P()
@@ -403,6 +426,8 @@ def scenario(case, files):
         SB().scenario_buffered(case, r, opn, submit, p)
     elif path == 'blocked_read':
         BL().scenario_blocked(case, r, opn, submit, files)
+    elif path == 'callers':
+        CL().scenario_callers(case, r, lambda k: opener(k, files), submit, Run)
     elif path == 'failed_hello':
         r.s, r.peer, err = manager_connect(kind, files, r, hello=case['hello'])
         r.raised = type(err).__name__ if err else None
@@ -517,6 +542,11 @@ def observe(case, r):
         o['late_calls'] = len([c for c in s.probe.calls if tcl is not None and c[1] > tcl])
         o['close_raised'] = list(s.close_raised)
         o['close_max_s'] = round(max(s.close_durations), 2) if s.close_durations else None
+        o['close_callers'] = sorted(set(s.close_callers))
+        # the session's thread still running at the moment a close() handed control back to another thread
+        o['alive_at_close_return'] = sorted({who for (who, alive) in s.alive_at_return if alive})
+        if 'alive_at_path_return' in r.extra:
+            o['alive_at_path_return'] = r.extra['alive_at_path_return']; o['caller'] = r.extra.get('caller')
         st = {'replied': [], 'failed': [], 'open': [], 'bad_error': []}
         from ncclient.transport.errors import TransportError as TE
         for q in r.rpcs:
@@ -546,6 +576,15 @@ def oracle(case, r, o):
     if o.get('raw_eof') is False:
         bad.append(('TCP connection still open towards the peer after the failed TLS connect (exception still referenced)', None))
     if o.get('late_calls'): bad.append(('%d listener invocation(s) after close() returned' % o['late_calls'], None))
+    if o.get('alive_at_close_return'):
+        bad.append(('session thread still running when close() returned to its caller (%s thread): its listeners can still be invoked'
+                    % '/'.join(o['alive_at_close_return']), None))
+    elif o.get('alive_at_path_return'):
+        bad.append(('session thread still running when the close path returned to its caller (%s thread)' % o.get('caller'), None))
+    if case.get('path') == 'callers' and o.get('caller') is not None:
+        want = {'app_nondaemon': 'app'}.get(case['caller'], case['caller'])
+        if o['caller'] != want and not (want == 'main' and o['caller'] == 'app'):
+            raise AssertionError('harness: the close path was entered by a %s thread, the case asks for %s' % (o['caller'], want))
     if o.get('send_after') != 'TransportError' and (o.get('client_close_returned') or r.extra.get('worker_closed_itself')):
         bad.append(('send after close: %s' % o.get('send_after'), None))
     if o.get('close_raised'): bad.append(('close() raised %s' % o['close_raised'], None))
@@ -615,6 +654,7 @@ def correspond(case, r, o, model):
     return labels, mo, im, diffs
 
 def cleanup(r):
+    if r.other is not None: cleanup(r.other[1])
     try:
         if r.s is not None and (r.s.is_alive() or r.s.connected): r.s.close()
     except Exception: pass
@@ -631,10 +671,13 @@ def run_case(case, files, model):
     def go():
         try: box['r'] = scenario(case, files)
         except BaseException as e: box['e'] = e
-    th = threading.Thread(target=go, daemon=True, name='c12-scenario'); th.start(); th.join(WATCHDOG)
-    if th.is_alive():
+        finally: CL().scenario_done()
+    th = threading.Thread(target=go, daemon=True, name='c12-scenario'); th.start()
+    if not CL().serve_main(th, WATCHDOG):      # (the main thread executes the close paths that must run on it meanwhile)
         what = 'the close path did not return within %.0f s (close() blocked: the worker thread never ends)' % WATCHDOG
         return dict(obs={'hung': True}, bad=[(what, None)], labels=[], model=None, impl=None, diffs=[])
+    if isinstance(box.get('e'), CL().ClosePathHung):
+        return dict(obs={'hung': True}, bad=[(str(box['e']), None)], labels=[], model=None, impl=None, diffs=[])
     if 'e' in box: raise box['e']
     r = box['r']
     try:
@@ -643,7 +686,17 @@ def run_case(case, files, model):
         labels, mo, im, diffs = correspond(case, r, o, model)
         o2 = dict(o); o2['raised'] = r.raised
         if 'asleep' in r.extra: o2['asleep'] = r.extra['asleep']
-        return dict(obs=o2, bad=bad, labels=labels, model=mo, impl=im, diffs=diffs)
+        res = dict(obs=o2, bad=bad, labels=labels, model=mo, impl=im, diffs=diffs)
+        if r.other is not None:
+            # the other session that took part (its listener asked for the close) is a session of its own: same sentence, same model
+            case_a, ra = r.other
+            oa = observe(case_a, ra)
+            res['bad'] = bad + [('other session (%s/%s): %s' % (case_a['transport'], case_a['path'], w), sg) for (w, sg) in oracle(case_a, ra, oa)]
+            la, moa, ima, da = correspond(case_a, ra, oa, model)
+            res['diffs'] = diffs + ['other session (%s/%s): %s' % (case_a['transport'], case_a['path'], d) for d in da]
+            res['obs']['other'] = {k: v for k, v in oa.items() if k != 'reqs'}
+            res['other_labels'] = la; res['other_model'] = moa
+        return res
     finally:
         cleanup(r)
 
@@ -689,6 +742,8 @@ def gen_cases(kind, rng, thorough):
                 cs.append(dict(transport=kind, path='ssh_buffered', mode=rng.choice(['callback', 'gate']), k=rng.randint(1, 6),
                                pending=rng.randint(0, 2), msg=rng.choice([300, 700, 1000, 1500, 4096, 5000])))
     if thorough: cs.extend(BL().thorough_cases(kind, rng))      # the worker asleep inside a read when the session is closed
+    # who asks for the close: main thread, application thread, the thread of ANOTHER session (a listener of session A closes B)
+    cs.extend(CL().thorough_cases(kind, rng) if thorough else CL().quick_cases(kind, rng))
     # extra random races
     for _ in range(6 if not thorough else 20):
         cs.append(dict(transport=kind, path='race_reply', pending=rng.randint(1, 3), delay=rng.choice([0, 0.0005, 0.002, 0.005])))
@@ -753,6 +808,19 @@ def _ssh_iter_evidence(ctx, case, res):
             chunks=it['buffered_chunks'], iterations_after_close=it['selects_after_close'], bound=it['bound'],
             model_bound=mi.get('model_bound'), model_sel_after_close=mi.get('model_sel_after_close')))
 
+def _secs(ctx, case, t0):
+    d = ctx.extra.setdefault('seconds_by_path', {})
+    k = '%s/%s' % (case['transport'], case['path'])
+    d[k] = round(d.get(k, 0) + time.time() - t0, 2)
+
+def _caller_evidence(ctx, case, res):
+    """which kind of thread entered close() (measured inside close(): own / foreign = another session's thread / main / app)"""
+    o = res.get('obs') or {}
+    for who in o.get('close_callers') or []: ctx.hist('close_called_by', '%s/%s' % (case['transport'], who))
+    if case.get('path') == 'callers':
+        ctx.hist('callers_path', '%s %s%s via %s' % (case['transport'], case['caller'],
+                 ('(%s of a %s session)' % (case['trigger'], case.get('a_transport'))) if case['caller'] == 'foreign' else '', case['via']))
+
 def _blocked_evidence(ctx, case, res):
     """blocked_read: was the worker really asleep inside the read when the close path was entered; how long close() took"""
     if case.get('path') != 'blocked_read': return
@@ -776,20 +844,24 @@ def run(ctx):
         for case in cases:
             if ctx.failures or len(ctx.disagreements) >= 3:
                 break                              # a confirmed violation / broken tie: report it, do not pile up time-outs
+            t_case = time.time()
             res = check_case(ctx, case, files, ctx.model)
+            _secs(ctx, case, t_case)
             ctx.count(case, nontrivial=(case.get('fault') not in ('nolistener',)))
             ctx.traces += 1 if res['model'] is not None and res['model'].get('accepted') else 0
             ctx.hist('transport', kind); ctx.hist('path', case['path']); ctx.hist('pending', case.get('pending', 0))
             ctx.hist('labels_per_trace', min(200, 10 * (len(res['labels']) // 10)))
             if res['obs'].get('exit_delay') is not None: ctx.hist('worker_exit_delay_s', '%.1f' % res['obs']['exit_delay'])
             if kind == 'ssh': _ssh_iter_evidence(ctx, case, res)
-            _blocked_evidence(ctx, case, res)
+            _blocked_evidence(ctx, case, res); _caller_evidence(ctx, case, res)
             if ctx.evaluations % 17 == 1:
                 ctx.sample({'case': case, 'obs': {k: v for k, v in res['obs'].items() if k != 'reqs'}, 'n_labels': len(res['labels'])})
         if ctx.failures or len(ctx.disagreements) >= 3:
             break
         n = 20 if not thorough else 50
+        t_case = time.time()
         lk = cycles(kind, files, n, ctx)
+        _secs(ctx, dict(transport=kind, path='cycles'), t_case)
         ctx.extra.setdefault('cycles', {})[kind] = dict(n=n, **lk)
         ctx.count(dict(transport=kind, path='cycles', n=n))
         if lk['fd_delta'] > 0 or lk['threads_delta'] > 0:
@@ -810,19 +882,24 @@ def run(ctx):
                      # failed hello with the worker asleep in recv (select reported the TLS 1.3 session tickets: records without
                      # application data) when the manager's clean-up closes the session
                      dict(transport='tls', path='failed_hello', hello='silent'),
+                     # a listener of another session (it runs on that session's thread) closes the session
+                     dict(transport='tls', path='callers', caller='foreign', a_transport='unix', trigger='callback', via='close', pending=1, slow=0.15),
+                     dict(transport='ssh', path='callers', caller='foreign', a_transport='unix', trigger='errback', via='close_session', pending=1, slow=0.15),
                      ] + SB().quick_cases(ctx.rng) + BL().quick_cases(ctx.rng):
             if ctx.failures or len(ctx.disagreements) >= 3: break
+            t_case = time.time()
             res = check_case(ctx, case, files, ctx.model)
+            _secs(ctx, case, t_case)
             ctx.count(case); ctx.hist('transport', case['transport']); ctx.hist('path', case['path'])
             ctx.traces += 1 if res['model'] is not None and res['model'].get('accepted') else 0
             if case['transport'] == 'ssh': _ssh_iter_evidence(ctx, case, res)
-            _blocked_evidence(ctx, case, res)
+            _blocked_evidence(ctx, case, res); _caller_evidence(ctx, case, res)
     ctx.exhaustive = False
 
 def search(ctx, seeds):
     kinds = ['unix'] + (['tls', 'ssh'] if ctx.tier == 'thorough' else [])
     files = _files(kinds + ['tls'])
-    tries = list(seeds) + BL().quick_cases(ctx.rng)
+    tries = list(seeds) + CL().quick_cases('unix', ctx.rng) + BL().quick_cases(ctx.rng)
     for k in kinds: tries += gen_cases(k, ctx.rng, False)
     for case in tries:
         try:
